@@ -182,7 +182,8 @@ func execCronSysCase(c Case) {
 		late := false
 		for _, oi := range obs {
 			o := obj(oi)
-			if due[str(o["loc"])+"/"+str(o["id"])] && num(o["ran"]) == 0 {
+			// (not run yet, or run but its own removal - the last step of a one-shot rule - still in progress)
+			if due[str(o["loc"])+"/"+str(o["id"])] && (num(o["ran"]) == 0 || boolean(o["present"])) {
 				late = true
 			}
 		}
